@@ -219,10 +219,14 @@ def build_spec(corners, cells, sites, npts=0, rng=None, mob=None, npts_range=Non
 
 def voronoi_tissue(rng, n=30, box=100.0, npts=3, npts_range=None, mob_strength=0.0, snap=None,
                    sites=None, transform=None, margin=0.0):
-    if sites is None:
-        sites = random_sites(rng, n, box)
-    corners, cells = voronoi_cells(sites, box=box, margin=margin)
-    cells = largest_component(cells)
+    given = sites is not None
+    for _ in range(50):
+        if not given:
+            sites = random_sites(rng, n, box)
+        corners, cells = voronoi_cells(sites, box=box, margin=margin)
+        cells = largest_component(cells)
+        if cells or given:
+            break                     # a handful of random sites may have no bounded region inside the box: draw again
     mob = random_mobius(rng, box, mob_strength) if mob_strength > 0 else None
     spec = build_spec(corners, cells, sites, npts=npts, rng=rng, mob=mob, npts_range=npts_range,
                       snap=snap, transform=transform)
@@ -278,6 +282,8 @@ def connected_subsets(spec, rng, count, min_cells=1):
     adj = cell_adjacency(spec)
     ids = [cid for cid, _ in spec["cells"]]
     out = []
+    if not ids:
+        return [[] for _ in range(count)]
     for _ in range(count):
         size = int(rng.integers(min(min_cells, len(ids)), len(ids) + 1))
         start = ids[int(rng.integers(0, len(ids)))]
